@@ -26,6 +26,6 @@ def one(bid):
         shutil.rmtree(tmp, ignore_errors=True)
 
 ids = sys.argv[1:] or sorted(os.listdir(B), key=lambda x: int(x[1:]))
-with cf.ThreadPoolExecutor(3) as ex:
+with cf.ThreadPoolExecutor(4) as ex:
     for bid, out in ex.map(one, ids):
         print(bid, "SILENT" if not out else f"ALARM {out}")
